@@ -1,12 +1,13 @@
 import Dmn.Model.Sexp
 import Dmn.Model.Plane
 import Dmn.Model.Canvas
+import Dmn.Model.CanvasStages
 
 /-!
 Driver handler for C19.
 
 * `(c19 table <spec> <decor> <layout>)` → `((draw <line>…) (plane <display>) (texts <row>…)
-  (post <display>|(none)) (recognized <outcome>) (wf <bool>) (scan-inverts-draw <bool>))`: the drawing of the table, the
+  (post <display>|(none)) (recognized <outcome>) (wf <bool>) (scan-inverts-draw <bool> [failing-stages marks|regions|plane…]) (fits <bool>))`: the drawing of the table, the
   plane it denotes (`planeOf`), the plane the recogniser leaves behind, and
   `recognizePlane (planeOf t)`.
 * `(c19 layout <spec> <decor> <slack>)` → `(<spec> <decor> <layout>)`: `autoLayout` — the
@@ -268,7 +269,17 @@ def handle (args : List Sexp) : String :=
         post,
         .list [.atom "recognized", outcomeS (recognizePlane P)],
         .list [.atom "wf", Sexp.ofBool t.wf],
-        .list [.atom "scan-inverts-draw", Sexp.ofBool (scanInvertsDraw d L t)]])
+        -- `(scan-inverts-draw true)` iff the scanner model reads the drawing back AND every later
+        -- stage meets its written-out expectation (stageMarks / stageRegions / stagePlane of
+        -- Model/CanvasStages.lean, the hypotheses of recognize_text_roundtrip_stages); otherwise
+        -- the failing stages are named
+        .list (.atom "scan-inverts-draw" ::
+          (if scanInvertsDraw d L t && (failingStages d L t).isEmpty then [Sexp.ofBool true]
+           else Sexp.ofBool (scanInvertsDraw d L t) ::
+             .atom "failing-stages" :: (failingStages d L t).map Sexp.atom)),
+        -- the hypothesis `Fits` of scan_marks_of_drawing / recognize_text_roundtrip_stages, in its
+        -- decidable form: the generated drawing is a legal one
+        .list [.atom "fits", Sexp.ofBool (fitsB d L t)]])
     | _, _, _ => "(error bad-table-request)"
   | [.atom "plane", plane] =>
     match plane? plane with
